@@ -310,7 +310,8 @@ func (s *MemStore) TombstoneFile(ctx context.Context, ptr []byte) error {
 // FaultMeta wraps a MetaStore, logging Update/iteration into the MemStore's log and failing on demand.
 type FaultMeta struct {
 	bs.MetaStore
-	s *MemStore
+	s          *MemStore
+	iterFaults bool // also log / fail GetMaybeFilesForQuery as op "iter"
 }
 
 func (m *FaultMeta) Update(ctx context.Context, w []bs.WriteOperation, d []bs.DeleteOperation) error {
